@@ -13,6 +13,7 @@
   * the section accessor reports the section the record was yielded from.
 -/
 import DnsModel.Lemmas.EdnsWalk
+import DnsModel.Tie.Reader
 import DnsModel.Theorems.C02
 namespace Dns.C03
 open Dns Res
@@ -333,5 +334,18 @@ example : ∃ v, parse C02.okPacket = .ok v := (C02.parse_ok_iff_wf _).2 (by
     | err e => simp [h, Res.isOk] at this
     | panic => simp [h, Res.isOk] at this
     | diverge => simp [h, Res.isOk] at this))
+
+
+/-! ### Tie to the current source text
+The name readers the accessors use (`Compress::raw_name_len`, `raw_name_len_after_decompression`, `copy_uncompressed_name`,
+`SuffixDict::raw_names_eq_ignore_case`) are re-translated from /repo/src/compress.rs by rs2lean.py on every run
+(`Generated/TrReader.lean`) and proved equal to the model functions used above (`Tie/Reader.lean`). -/
+theorem source_reader_tie (p pre n1 n2 : Bytes) (off : Nat) :
+    Tr.Reader.raw_name_len p = rawNameLen p ∧
+    Tr.Reader.raw_name_len_after_decompression p off = rawNameLenAfterDecompression p off ∧
+    Tr.Reader.copy_uncompressed_name pre p off
+      = (copyUncompressedName p off >>= fun r => Res.ok ((r.1.length, r.2), pre ++ r.1)) ∧
+    Tr.Reader.raw_names_eq_ignore_case n1 n2 = .ok (rawNamesEqIgnoreCase n1 n2) :=
+  Tie.reader_tie p pre n1 n2 off
 
 end Dns.C03
